@@ -16,7 +16,7 @@ func init() { register("C17", checkC17) }
 // c17Preconditions: potential panic sites in frames that no recover boundary covers and that are excluded by a
 // documented precondition of the API rather than by the code. One named construct per line, with the reason.
 var c17Preconditions = map[string]string{
-	"internal/validator.ValidateCompiledWithConfiguration#nil-deref:compiledRegoPtr": "the compiled profile is the non-nil result of CompileProfile; the property quantifies over profile and data texts, not over this pointer",
+	"internal/validator.ValidateCompiledWithConfiguration#nil-deref:param0(*rego.PreparedEvalQuery)": "the compiled profile is the non-nil result of CompileProfile; the property quantifies over profile and data texts, not over this pointer",
 }
 
 // publicEntries: the exported functions of package pkg (the library's API).
@@ -170,10 +170,25 @@ func checkC17(c *Ctx) {
 			nSites++
 			what := s.Kind
 			if s.Kind == "nil-deref" {
+				// a parameter is named by its position and type (names change, contracts do not)
+				label := func(v ssa.Value) string {
+					if prm, ok := v.(*ssa.Parameter); ok {
+						for i, q := range f.Params {
+							if q == prm {
+								t := prm.Type().String()
+								if j := strings.LastIndex(t, "/"); j >= 0 {
+									t = "*" + t[j+1:]
+								}
+								return fmt.Sprintf("param%d(%s)", i, t)
+							}
+						}
+					}
+					return v.Name()
+				}
 				if u, ok := s.Instr.(*ssa.UnOp); ok {
-					what += ":" + u.X.Name()
+					what += ":" + label(u.X)
 				} else if fa, ok := s.Instr.(*ssa.FieldAddr); ok {
-					what += ":" + fa.X.Name()
+					what += ":" + label(fa.X)
 				}
 			}
 			k := ord.next(key + "#" + what)
